@@ -89,6 +89,17 @@ def clean_composite_curve(
     if len(x_vals) <= 2:
         return y_vals, x_vals
 
+    # A point repeated in consecutive rows (a table rounded for output) carries no information
+    # and would hide the corner it sits on from the neighbour test below.
+    distinct = [0] + [
+        i for i in range(1, len(x_vals))
+        if x_vals[i] != x_vals[i - 1] or y_vals[i] != y_vals[i - 1]
+    ]
+    x_vals = [x_vals[i] for i in distinct]
+    y_vals = [y_vals[i] for i in distinct]
+    if len(x_vals) <= 2:
+        return y_vals, x_vals
+
     x_clean, y_clean = [x_vals[0]], [y_vals[0]]
 
     for i in range(1, len(x_vals) - 1):
